@@ -71,7 +71,7 @@ func (r *FileReader) ReadNext() ([]byte, error) {
 		return readNextV3(r)
 	} else {
 		start := r.reader.Count()
-		payloadSizeUncompressed, payloadSizeCompressed, recordNil, err := readRecordHeaderV4(r.recordHeaderByteReader)
+		payloadSizeUncompressed, payloadSizeCompressed, recordNil, err := readRecordHeaderV4(r.recordHeaderByteReader, r.header.compressor != nil)
 		if err != nil {
 			// due to the use of blocked writes in DirectIO, we need to test whether the remainder of the file contains only zeros.
 			// This would indicate a properly written file and the actual end - and not a malformed record.
@@ -143,7 +143,7 @@ func (r *FileReader) SkipNext() error {
 		return SkipNextV3(r)
 	} else {
 		start := r.reader.Count()
-		payloadSizeUncompressed, payloadSizeCompressed, recordNil, err := readRecordHeaderV4(r.recordHeaderByteReader)
+		payloadSizeUncompressed, payloadSizeCompressed, recordNil, err := readRecordHeaderV4(r.recordHeaderByteReader, r.header.compressor != nil)
 		if err != nil {
 			return r.skipHeaderError(err)
 		}
